@@ -108,8 +108,7 @@ pub fn gen_password(r: &mut Rng, r6: bool) -> String {
                let pool = ['é', 'ü', 'ß', 'Ø', 'ñ', 'a', 'Z', '7']; let n = 1 + r.usize(10); (0..n).map(|_| *r.pick(&pool)).collect() }
         8 => if r6 { let pool = ['п', 'а', 'р', 'о', 'л', 'ь', '密', '码', 'x']; let n = 1 + r.usize(10); (0..n).map(|_| *r.pick(&pool)).collect() }
              else { r.pick(&PASSWORDS_ASCII).to_string() },
-        _ => if r6 { let n = 100 + r.usize(28); (0..n).map(|_| (b'A' + r.below(26) as u8) as char).collect() }   // up to 127 bytes
-             else { let n = 100 + r.usize(60); (0..n).map(|_| (b'A' + r.below(26) as u8) as char).collect() },   // > 127 fine for R<=4 (32 used)
+        _ => { let n = match r.below(4) { 0 => 127, 1 => 128, _ => 100 + r.usize(100) }; (0..n).map(|_| (b'A' + r.below(26) as u8) as char).collect() }   // around and beyond 127 bytes
     }
 }
 
@@ -124,7 +123,7 @@ pub fn gen_config(r: &mut Rng, forced: Option<Ver>) -> Config {
     let r6 = matches!(ver, Ver::R5 | Ver::V5);
     let names: [&[u8]; 4] = [b"StdCF", b"Other", b"X", b"Identity"];
     let mut filters: Vec<(Vec<u8>, u8)> = vec![];
-    let (stmf, strf);
+    let (mut stmf, mut strf);
     match ver {
         Ver::V4 => {
             let kinds = [b'R', b'A', b'I'];
@@ -135,6 +134,8 @@ pub fn gen_config(r: &mut Rng, forced: Option<Ver>) -> Config {
                 filters.push((b"StdCF".to_vec(), k1)); filters.push((b"Other".to_vec(), k2)); stmf = b"StdCF".to_vec(); strf = b"Other".to_vec();
             }
             if r.chance(1, 2) { filters.push((b"X".to_vec(), *r.pick(&kinds))); }
+            // the predefined name Identity (never listed in CF) as a default filter
+            match r.below(8) { 0 => stmf = b"Identity".to_vec(), 1 => strf = b"Identity".to_vec(), _ => {} }
         }
         Ver::R5 | Ver::V5 => {
             let kinds = [b'B', b'B', b'B', b'I'];
@@ -142,6 +143,7 @@ pub fn gen_config(r: &mut Rng, forced: Option<Ver>) -> Config {
             filters.push((b"StdCF".to_vec(), k1)); stmf = b"StdCF".to_vec();
             if k1 == k2 { strf = b"StdCF".to_vec(); } else { filters.push((b"Other".to_vec(), k2)); strf = b"Other".to_vec(); }
             if r.chance(1, 2) { filters.push((b"X".to_vec(), *r.pick(&[b'B', b'I']))); }
+            match r.below(8) { 0 => stmf = b"Identity".to_vec(), 1 => strf = b"Identity".to_vec(), _ => {} }
         }
         _ => { stmf = vec![]; strf = vec![]; }
     }
@@ -394,7 +396,7 @@ pub fn run(c: &mut Ctx) {
     c.rule = "random documents (1-9 objects, sparse ids / generations, strings nested in arrays and dictionaries to depth 4, binary / empty / 15-16-17-byte \
 strings and streams, Metadata / XRef / Crypt-override streams, Metadata dictionaries, wrong or missing Length) x configurations {V1; V2 40..128 step 8; V4 with \
 {RC4,AESV2,Identity} chosen independently for strings and streams; R5; V5} x EncryptMetadata x permission subsets x passwords (empty, ASCII, Latin-1, non-Latin, \
-33-72 and 100-160 bytes, owner = user). Non-trivial = at least one string or stream was present and the configuration is not all-Identity; distinct by encdoc request.".into();
+33-72 and 100-200 bytes incl. 127 / 128, owner = user). Non-trivial = at least one string or stream was present and the configuration is not all-Identity; distinct by encdoc request.".into();
     primitives(c);
     let n = c.n(260, 2500);
     for i in 0..n {
@@ -450,8 +452,7 @@ fn one_case(c: &mut Ctx, r: &mut Rng, cfg: &Config, orig: &Document, with_save: 
                     } else { c.count(&format!("ref_decrypt_ok.{}", who)); }
                 }
                 Err(w) => {
-                    let long = cfg.is_r6ish() && pw.len() > 127;
-                    c.oracle_fail(if long { "r6-password-over-127" } else { "reference-rejects" }, &format!("ISO reference on lopdf's output ({} password): {}", who, w), case.clone());
+                    c.oracle_fail("reference-rejects", &format!("ISO reference on lopdf's output ({} password): {}", who, w), case.clone());
                 }
             }
         }
@@ -474,7 +475,7 @@ fn one_case(c: &mut Ctx, r: &mut Rng, cfg: &Config, orig: &Document, with_save: 
             if let Err(w) = docs_same_mod_length(orig, &d) { c.oracle_fail("user-roundtrip-differs", &w, case.clone()); } else { c.count("roundtrip_ok.user"); }
             if d.is_encrypted() || d.trailer.has(b"Encrypt") { c.oracle_fail("encrypt-entry-left", "Encrypt still present after decrypt", case.clone()); }
         }
-        Err(cls) => c.oracle_fail(if cfg.is_r6ish() && e.user_b.len() > 127 { "r6-password-over-127" } else { "user-password-rejected" }, &cls, case.clone()),
+        Err(cls) => c.oracle_fail("user-password-rejected", &cls, case.clone()),
     }
     // ---- real decrypt: owner password. R2–R4 with owner != user is finding F-C05-a territory: correspondence only
     let owner_known_bad = cfg.revision() <= 4 && e.owner_b != e.user_b;
@@ -483,7 +484,7 @@ fn one_case(c: &mut Ctx, r: &mut Rng, cfg: &Config, orig: &Document, with_save: 
             if owner_known_bad { c.count("owner_r234.corr_only"); }
             else if let Err(w) = docs_same_mod_length(orig, &d) { c.oracle_fail("owner-roundtrip-differs", &w, case.clone()); } else { c.count("roundtrip_ok.owner"); }
         }
-        Err(cls) => if !owner_known_bad { c.oracle_fail(if cfg.is_r6ish() && e.owner_b.len() > 127 { "r6-password-over-127" } else { "owner-password-rejected" }, &cls, case.clone()) }
+        Err(cls) => if !owner_known_bad { c.oracle_fail("owner-password-rejected", &cls, case.clone()) }
                     else { c.count("owner_r234.rejected") },
     }
     // ---- wrong password: error, document unchanged (checked inside decrypt_real)
@@ -492,7 +493,9 @@ fn one_case(c: &mut Ctx, r: &mut Rng, cfg: &Config, orig: &Document, with_save: 
     if wrong_b != e.user_b && wrong_b != e.owner_b {
         // for R<=4 only 32 bytes count
         let eq32 = |a: &[u8], b: &[u8]| a.iter().take(32).eq(b.iter().take(32));
-        if cfg.revision() > 4 || (!eq32(&wrong_b, &e.user_b) && !eq32(&wrong_b, &e.owner_b)) {
+        // R5/R6: only the first 127 bytes count
+        let eq127 = |a: &[u8], b: &[u8]| a.iter().take(127).eq(b.iter().take(127));
+        if (cfg.revision() > 4 && !eq127(&wrong_b, &e.user_b) && !eq127(&wrong_b, &e.owner_b)) || (cfg.revision() <= 4 && !eq32(&wrong_b, &e.user_b) && !eq32(&wrong_b, &e.owner_b)) {
             match decrypt_real(c, &e, &wrong, &[]) {
                 Ok(_) => c.oracle_fail("wrong-password-accepted", "a password that is neither the user nor the owner password was accepted", json!({"wrong": wrong, "case": case})),
                 Err(_) => c.count("wrong_rejected"),
@@ -509,7 +512,7 @@ fn one_case(c: &mut Ctx, r: &mut Rng, cfg: &Config, orig: &Document, with_save: 
                 let b = sanitize(&e.doc, pw).unwrap_or_default();
                 let expect = rf::authenticate(&d, &id0, &b, false).is_some();
                 let got = e.doc.authenticate_password(pw).is_ok();
-                if expect != got && !(cfg.is_r6ish() && b.len() > 127) {
+                if expect != got {
                     c.oracle_fail("authenticate-differs", &format!("authenticate_password={} reference={}", got, expect), json!({"pw": pw, "case": case}));
                 }
             }
@@ -721,10 +724,10 @@ fn witnesses(c: &mut Ctx) {
             let orig = simple_doc();
             if let Ok(e) = encrypt_real(c, &cfg, &orig) {
                 let user = decrypt_real(c, &e, &cfg.user, &[]); let owner = decrypt_real(c, &e, &cfg.owner, &[]);
-                if user.is_err() && owner.is_err() { repro += 1; }
+                if user.is_err() || owner.is_err() { repro += 1; }
                 detail.push(format!("{:?}: user {:?} owner {:?}", ver, user.err(), owner.err()));
             }
         }
-        c.witness("F-C05-c", repro == 2, &format!("128-byte user / 200-byte owner password rejected after encrypt: {}", detail.join("; ")));
+        c.witness("F-C05-c", repro > 0, &format!("128-byte user / 200-byte owner password rejected after encrypt: {}", detail.join("; ")));
     }
 }
